@@ -7,7 +7,7 @@ CONSTANTS NP = 3
           Cfgs = {}
           Msgs = {}
 INVARIANTS TypeOK BlockOnlyIfPresentWantedPermitted HaveOnlyIfPresent DontHaveOnlyIfAbsentAndAsked
-           LedgerBounded NoGhostWhenIdeal QueueBounded PresentWantHasTask EvictionOrder DevReport
+           LedgerBounded NoGhostWhenIdeal QueueBounded PresentWantHasTask UpgradeKeepsBlockTask EvictionOrder DevReport
 CONSTRAINT TraceConstraint
 POSTCONDITION TracePost
 CHECK_DEADLOCK FALSE
